@@ -34,7 +34,10 @@ pub fn build_pred(spec: &str) -> (Option<AbsModel>, Result<Predictor, String>) {
             }
             p = q;
         }
-        p.store_tag_scores(st);
+        // only switched on explicitly: the default (off) must be what the constructor and the deserialiser leave
+        if st {
+            p.store_tag_scores(true);
+        }
         Ok(p)
     });
     let r = match r {
